@@ -426,3 +426,6 @@ func fmtOutcomes(m map[string]int64) string {
 	}
 	return sb.String()
 }
+
+// Evaluations returns the number of executions counted so far.
+func (r *Run) Evaluations() int64 { return atomic.LoadInt64(&r.evals) }
